@@ -125,8 +125,7 @@ class Ctx:
 
     def mul(s, x, y):
         if s.pp is not None and not (x.isconst() or y.isconst()):
-            if x.degree() + y.degree() > 3 or any(v.startswith('PP{') for v in x.vars() | y.vars()):
-                return s.pp.mul(x, y)
+            return s.pp.mul(x, y)      # AC-normalised opaque power products (Poseidon-sized forms)
         return (x * y).modp()
 
 
